@@ -21,6 +21,7 @@ var checks = map[string]func(tier string) int{
 	"C11": props.CheckC11,
 	"C12": props.CheckC12,
 	"C13": props.CheckC13,
+	"C14": props.CheckC14,
 }
 
 func main() {
